@@ -422,7 +422,7 @@ func TestVerifC17Readers(t *testing.T) {
 			t.Errorf("replay: %v", err)
 		}
 	}
-	if only {
+	if only || t.Failed() {
 		return
 	}
 	defer rec.Commit(testName)
